@@ -278,6 +278,11 @@ class FlagByExactValueProvider(BaseFlagProvider):
                 is_demonstrative=True,
             )
 
+        member_values = [case.value for case in enum.__members__.values()]
+        single_bits = reduce(or_, (value for value in member_values if _is_single_bit(value)), 0)
+        # bits presented only inside multi-bit members can not be used alone, `enum(data)` checks this not at all versions
+        has_dependent_bits = single_bits != flag_mask
+
         def flag_loader(data):
             if type(data) is not int:
                 raise TypeLoadError(int, data)
@@ -285,10 +290,17 @@ class FlagByExactValueProvider(BaseFlagProvider):
             if data < 0 or data > flag_mask:
                 raise OutOfRangeLoadError(0, flag_mask, data)
 
+            if has_dependent_bits:
+                covered = 0
+                for value in member_values:
+                    if value & data == value:
+                        covered |= value
+                if covered != data:
+                    raise OutOfRangeLoadError(0, flag_mask, data)
+
             try:
                 return enum(data)
             except ValueError:
-                # bits presented only inside multi-bit members can not be used alone
                 raise OutOfRangeLoadError(0, flag_mask, data)
 
         return flag_loader
